@@ -27,6 +27,17 @@
 (*   tiny    one message with < 100 (and < rem) bytes: refused by the      *)
 (*           per-message minimum                                           *)
 (*   huge    one message longer than maxMsgSize                            *)
+(* and RAW frames that are not what an honest client sends (the server     *)
+(* counts by frame length without parsing):                                *)
+(*   lie     tiny frames whose inner data-length prefix claims thousands   *)
+(*           of bytes the frame does not hold                              *)
+(*   fields  short frames with the data split over several small fields    *)
+(*           (both: below the per-message minimum; they carry >= 1 byte    *)
+(*           beyond the headers, so they do complete a remainder of ONE)   *)
+(*   trunc   a frame whose delimiter promises more (or fewer) bytes than   *)
+(*           are sent before the client closes                             *)
+(*   pad     full-size frames padded with unknown fields / a data prefix   *)
+(*           claiming less than the frame holds, adding up to rem          *)
 (* and it can end early: close (EOF) or stall (stream deadline).           *)
 (* One action = what the server does until it next blocks on the client    *)
 (* or finishes: Request, Data(seg), End(kind); Minute lets the window pass.*)
@@ -47,7 +58,7 @@ Classes == {"priv", "undial", "malformed", "pubSame", "pubOther"}
 Dialable(c) == c \in {"pubSame", "pubOther"}
 Requests == UNION {[1..n -> Classes] : n \in 0..MaxLen}
 BadKinds == {"wrongtype", "garbage", "eof"}     \* not a DialRequest at all
-Segs == {"part", "allbut1", "rest", "over", "tiny", "huge"}
+Segs == {"part", "allbut1", "rest", "over", "tiny", "huge", "lie", "fields", "trunc", "pad"}
 Ends == {"close", "stall"}
 Outcomes == {"ok", "dialerr", "streamerr"}       \* scripted result of the dial back
 DStat(o) == CASE o = "ok" -> "OK" [] o = "dialerr" -> "E_DIAL_ERROR" [] o = "streamerr" -> "E_DIAL_BACK_ERROR"
@@ -133,12 +144,13 @@ Data(seg, o) ==
             /\ rem \in {"FULL", "MID"} /\ o = "ok"
             /\ rem' = "ONE" /\ UNCHANGED <<phase, cur, idx, parts>> /\ NoHist
             /\ op' = base @@ [resp |-> "MORE"] @@ NoDial
-       [] seg \in {"rest", "over"} ->               \* remain <= 0: (random wait, then) dial back
+       [] seg \in {"rest", "over", "pad"} \/ (seg \in {"lie", "fields"} /\ rem = "ONE") ->               \* remain <= 0: (random wait, then) dial back
             /\ Idle /\ DidDial("pubOther")
             /\ op' = base @@ [resp |-> "OK", dial |-> TRUE, dstat |-> DStat(o), dres |-> o, remAtDial |-> "DONE", stale |-> held]
-       [] seg \in {"tiny", "huge"} ->               \* "dial data msg too small" / ErrShortBuffer: reset, no dial
+       [] seg \in {"tiny", "huge"} \/ (seg \in {"lie", "fields", "trunc"} /\ rem \in {"FULL", "MID"}) ->               \* "dial data msg too small" / ErrShortBuffer: reset, no dial
             /\ Idle /\ o = "ok" /\ NoHist
             /\ op' = base @@ [resp |-> "RESET"] @@ NoDial
+       [] OTHER -> FALSE                            \* trunc is scripted only while much is missing
 
 End(k) ==
   /\ phase = "data"
